@@ -173,10 +173,12 @@ Gate(g, k, m, r, path) ==
            /\ ops' = Append(ops, OpM(g, IdxOf(r), k, m))
            /\ UNCHANGED <<evMeas, last, free, vars, depth, trk, echo, draws, halted, done>>
 
+\* a controlled gate needs two different qubits: naming the same qubit twice is refused like an
+\* operation on a measured qubit (the program stops with a located runtime error, nothing is emitted)
 CXg(c, t, path) ==
-   /\ Running /\ Len(prog) < MaxLen /\ ValidRef(c) /\ ValidRef(t) /\ IdxOf(c) # IdxOf(t)
+   /\ Running /\ Len(prog) < MaxLen /\ ValidRef(c) /\ ValidRef(t)
    /\ Stmt([s |-> "cx", v |-> c[1], e |-> c[2], v2 |-> t[1], e2 |-> t[2], path |-> path])
-   /\ IF evMeas[IdxOf(c)] \/ evMeas[IdxOf(t)]
+   /\ IF evMeas[IdxOf(c)] \/ evMeas[IdxOf(t)] \/ IdxOf(c) = IdxOf(t)
       THEN Halt /\ UNCHANGED <<sim, evMeas, last, free, vars, depth, trk, echo, ops, draws>>
       ELSE /\ sim' = CX(sim, IdxOf(c), IdxOf(t))
            /\ ops' = Append(ops, Op("cx", IdxOf(c), IdxOf(t), 0, -1))
